@@ -131,6 +131,12 @@ def script(unit):
         obs.append(('get_gender:not-M-or-F', ob_gender))
     if 'split' in idx:
         k3 = idx['split']
+        k3t = 0
+        if m == 'stdnum.ismn':
+            # ismn.split() documents the 13-digit form (979, 0, publisher, item, check): the canonical number it splits is
+            # to_ismn13(validate(x))
+            calls.append(Call(m, 'to_ismn13', [R(0)]))
+            k3t = len(calls) - 1
 
         def ob_split(outs):
             if outs[0].kind != 'ret' or outs[k3].kind != 'ret':
@@ -141,7 +147,9 @@ def script(unit):
             c = concat(parts)
             if c is None:
                 return False
-            target = outs[0].value
+            if outs[k3t].kind != 'ret':
+                return False
+            target = outs[k3t].value
             return veq(c, target)
         if m not in ('stdnum.isan',):
             obs.append(('split:parts-do-not-concatenate-to-the-number', ob_split))
